@@ -20,10 +20,12 @@ import (
 	"seehuhn.de/go/sfnt/cmap"
 	"seehuhn.de/go/sfnt/glyf"
 	"seehuhn.de/go/sfnt/glyph"
+	"seehuhn.de/go/sfnt/opentype/anchor"
 	"seehuhn.de/go/sfnt/opentype/classdef"
 	"seehuhn.de/go/sfnt/opentype/coverage"
 	"seehuhn.de/go/sfnt/opentype/gtab"
 	"seehuhn.de/go/sfnt/opentype/gtab/builder"
+	"seehuhn.de/go/sfnt/opentype/markarray"
 )
 
 func dslMustHex(s string) []byte {
@@ -197,6 +199,37 @@ func showSub(st gtab.Subtable) string {
 			p[i] = fmt.Sprintf("%d+%d>%s", k.Left, k.Right, showPA(l[k]))
 		}
 		return "h:" + strings.Join(p, ",")
+	case *gtab.Gpos3_1:
+		gl, ok := covOrder(l.Cov)
+		if !ok || len(gl) != len(l.Records) {
+			return "noncanonical-coverage"
+		}
+		p := make([]string, len(gl))
+		for i, g := range gl {
+			rec := l.Records[i]
+			p[i] = fmt.Sprintf("%d>%d.%d.%d.%d", g, rec.Entry.X, rec.Entry.Y, rec.Exit.X, rec.Exit.Y)
+		}
+		return "j:" + strings.Join(p, ",")
+	case *gtab.Gpos4_1:
+		ml, ok1 := covOrder(l.MarkCov)
+		bl, ok2 := covOrder(l.BaseCov)
+		if !ok1 || !ok2 || len(ml) != len(l.MarkArray) || len(bl) != len(l.BaseArray) {
+			return "noncanonical-coverage"
+		}
+		mp := make([]string, len(ml))
+		for i, g := range ml {
+			rec := l.MarkArray[i]
+			mp[i] = fmt.Sprintf("%d>%d.%d.%d", g, rec.Class, rec.Table.X, rec.Table.Y)
+		}
+		bp := make([]string, len(bl))
+		for i, g := range bl {
+			as := make([]string, len(l.BaseArray[i]))
+			for j, a := range l.BaseArray[i] {
+				as[j] = fmt.Sprintf("%d.%d", a.X, a.Y)
+			}
+			bp[i] = fmt.Sprintf("%d>%s", g, strings.Join(as, "+"))
+		}
+		return "k:" + strings.Join(mp, ",") + ":" + strings.Join(bp, ",")
 	case *gtab.Gpos2_2:
 		rows := make([]string, len(l.Adjust))
 		for i, row := range l.Adjust {
@@ -368,6 +401,39 @@ func readSub(s string) gtab.Subtable {
 			adj[i] = readVR(r)
 		}
 		return &gtab.Gpos1_2{Cov: covOf(gl), Adjust: adj}
+	case "j":
+		gl, rhs := readPairs(body)
+		recs := make([]gtab.EntryExitRecord, len(gl))
+		for i, r := range rhs {
+			var a, b, c, d int
+			fmt.Sscanf(r, "%d.%d.%d.%d", &a, &b, &c, &d)
+			recs[i] = gtab.EntryExitRecord{Entry: anchor.Table{X: funit.Int16(a), Y: funit.Int16(b)},
+				Exit: anchor.Table{X: funit.Int16(c), Y: funit.Int16(d)}}
+		}
+		return &gtab.Gpos3_1{Cov: covOf(gl), Records: recs}
+	case "k":
+		parts := strings.Split(body, ":")
+		ml, mr := readPairs(parts[0])
+		ma := make([]markarray.Record, len(ml))
+		for i, r := range mr {
+			var c, x, y int
+			fmt.Sscanf(r, "%d.%d.%d", &c, &x, &y)
+			ma[i] = markarray.Record{Class: uint16(c), Table: anchor.Table{X: funit.Int16(x), Y: funit.Int16(y)}}
+		}
+		bl, br := readPairs(parts[1])
+		ba := make([][]anchor.Table, len(bl))
+		for i, r := range br {
+			ba[i] = []anchor.Table{}
+			if r == "" {
+				continue
+			}
+			for _, a := range strings.Split(r, "+") {
+				var x, y int
+				fmt.Sscanf(a, "%d.%d", &x, &y)
+				ba[i] = append(ba[i], anchor.Table{X: funit.Int16(x), Y: funit.Int16(y)})
+			}
+		}
+		return &gtab.Gpos4_1{MarkCov: covOf(ml), BaseCov: covOf(bl), MarkArray: ma, BaseArray: ba}
 	case "h":
 		m := gtab.Gpos2_1{}
 		if body != "" {
@@ -425,7 +491,8 @@ var dslErrClasses = []string{
 	"invalid glyph id", "consecutive hyphens in glyph list", "invalid range", "hyphenated range not terminated",
 	"rune", "length mismatch", "duplicate mapping", "no substitutions found", "unexpected character",
 	"unterminated string", "unexpected", "expected integer", "invalid integer", "int16 out of range",
-	"expected glyph pair", "duplicate class", "font has no cmap",
+	"expected glyph pair", "expected glyph, got", "duplicate class", "font has no cmap",
+	"mark glyphs not given in ascending order", "base glyphs not given in ascending order", "missing mark class", "uint16 out of range",
 }
 
 func dslErrClass(msg string) string {
@@ -798,16 +865,48 @@ func genClasses(r *Rng, n, k int) classdef.Table {
 	return t
 }
 
-// genGposLookup draws a GPOS lookup of type 1 or 2 inside the language's domain.
+// genGposLookup draws a GPOS lookup of type 1, 2, 3 or 4 inside the language's domain.
 func genGposLookup(c *Ctx, n int) *gtab.LookupTable {
 	r := c.Rng
-	t := r.Range(1, 2)
+	t := Pick(r, []int{1, 1, 2, 2, 3, 4})
 	l := &gtab.LookupTable{Meta: &gtab.LookupMetaInfo{LookupType: uint16(t), LookupFlags: gtab.LookupFlags(r.Intn(16))}}
 	k := Pick(r, []int{1, 1, 2, 3})
 	c.Stat("rt.subtables", fmt.Sprint(k))
 	for ; k > 0; k-- {
 		cov := genCov(r, n)
 		switch {
+		case t == 4:
+			c.Stat("rt.form", "gpos4.1")
+			pick := func() funit.Int16 { return funit.Int16(Pick(r, []int{0, 0, 1, -1, 7, -20, 500, -32768, 32767})) }
+			nc := r.Range(1, min(3, len(cov)))
+			ma := make([]markarray.Record, len(cov))
+			for i := range ma {
+				cl := r.Intn(nc)
+				if i < nc {
+					cl = i
+				}
+				ma[i] = markarray.Record{Class: uint16(cl), Table: anchor.Table{X: pick(), Y: pick()}}
+			}
+			var bases []glyph.ID
+			if !r.Chance(1, 6) {
+				bases = genCov(r, n)
+			}
+			ba := make([][]anchor.Table, len(bases))
+			for i := range ba {
+				ba[i] = make([]anchor.Table, nc)
+				for j := range ba[i] {
+					ba[i][j] = anchor.Table{X: pick(), Y: pick()}
+				}
+			}
+			l.Subtables = append(l.Subtables, &gtab.Gpos4_1{MarkCov: covOf(cov), BaseCov: covOf(bases), MarkArray: ma, BaseArray: ba})
+		case t == 3:
+			c.Stat("rt.form", "gpos3.1")
+			pick := func() funit.Int16 { return funit.Int16(Pick(r, []int{0, 0, 1, -1, 7, -20, 500, -32768, 32767})) }
+			recs := make([]gtab.EntryExitRecord, len(cov))
+			for i := range recs {
+				recs[i] = gtab.EntryExitRecord{Entry: anchor.Table{X: pick(), Y: pick()}, Exit: anchor.Table{X: pick(), Y: pick()}}
+			}
+			l.Subtables = append(l.Subtables, &gtab.Gpos3_1{Cov: covOf(cov), Records: recs})
 		case t == 1 && r.Bool():
 			c.Stat("rt.form", "gpos1.1")
 			l.Subtables = append(l.Subtables, &gtab.Gpos1_1{Cov: covOf(cov), Adjust: genVR(r)})
@@ -879,6 +978,7 @@ var dslOtherForms = []string{
 	"GPOS2: A B -> x+1 & dx-2, A C -> _ & y+1",
 	"GPOS2:\n\t/A B/\n\tfirst A, B;\n\tsecond C;\n\t_, x+1;\n\tdx+2, _ & y+1;\n\t_, _;",
 	"GPOS3:\n\tA: 1,2 to 3,4;\n\tB: -1,-2 to 0,0",
+	"GPOS7:[A] [B] -> 0@0", "GPOS8: A | B C | D -> 1@0 || [A] | [B] | [C] -> 0@0",
 	"GPOS4:\n\tmark M: 0@1,2;\n\tmark N: 1@3,4;\n\tbase A: @5,6 @7,8;\n\tbase B: @-1,-2 @0,0;",
 }
 
@@ -932,7 +1032,7 @@ func randText(r *Rng) string {
 }
 
 func hasOtherForm(s string) bool {
-	return strings.Contains(s, "GSUB5") || strings.Contains(s, "GSUB6") || strings.Contains(s, "GPOS3") || strings.Contains(s, "GPOS4")
+	return strings.Contains(s, "GSUB5") || strings.Contains(s, "GSUB6") || strings.Contains(s, "GPOS7") || strings.Contains(s, "GPOS8")
 }
 
 var dslGposSnippets = []string{
@@ -941,6 +1041,14 @@ var dslGposSnippets = []string{
 	"GPOS2:\n\t/A B/\n\tfirst A, B;\n\tsecond C;\n\t_, x+1;\n\tdx+2, _ & y+1;\n\t_, _;",
 	"GPOS2: /A-C/ first A, , B; second C D, E;\n _, x+1, y+2; dx+2, _ & y+1, _; _, _, _; x+1,x+2,x+3; || A B -> _",
 	"GPOS1: [A-C] -> _ || [D] -> x+99999999999999999999", "GPOS2: A -> x+1",
+	"GPOS3:\n\tA: 1,2 to 3,4;\n\tB: -1,-2 to 0,0", "GPOS3: -rtl A 1,2 to 3,4; A: 5,6 to -7,8 || B: 0,0 to 0,0\nGSUB1: A->B",
+	"GPOS3: A B: 1,2 to 3,4", "GPOS3: : 1,2 to 3,4", "GPOS3: A: 1,2 too 3,4", "GPOS3: A: 1 2 to 3,4", "GPOS3: M: 40000,2 to 3,4",
+	"GPOS4:\n\tmark M: 0@1,2;\n\tmark N: 1@3,4;\n\tbase A: @5,6 @7,8;\n\tbase B: @-1,-2 @0,0;",
+	"GPOS4: mark M: 0@1,2; base A: @5,6\nGSUB1: A->B", "GPOS4: mark N: 0@1,2; mark M: 0@1,2", "GPOS4: mark M: 1@1,2",
+	"GPOS4: mark M: 0@1,2; base B: @1,1; base A: @1,1", "GPOS4: mark M: 70000@1,2", "GPOS4: mark M: -1@1,2", "GPOS4: base A:;", "GPOS4:",
+	"GPOS4: -marks mark M 0 @ 1 , 2 mark N: 1@1,1\nbase A: @1,2, @3,4 || mark C: 0@0,0 ||\n base D", "GPOS4: mark M: 0@1,2; base A: @1,2 @3,4",
+	"GPOS4: mark M: 0@1,2; mark N: 2@0,0", "GPOS4: mark A B: 0@1,2", "GPOS4: mark: 0@1,2", "GPOS4: mark M: 0@1,2; base A: @1 2", "GPOS4: mark M: 0@40000,2",
+	"GPOS3: \"AB\": 1,2 to 3,4", "GPOS3: C: 1,2 to 3,4;\n\nGSUB1: A->B", "GPOS3: C: +1,-2 to 3,", "GPOS3:\n\t3: 1,2 to 3,4; ||\n\tA: 1,1 to 1,1",
 }
 
 var simpleFont = dslFont{n: 30, names: append([]string{".notdef", "space", "x"}, strings.Split("A B C D E F G H I J K L M N O P Q R S T U V W X Y Z", " ")...)[:29:29],
@@ -1021,7 +1129,7 @@ func areaDsl(c *Ctx) {
 				t = mutate(r, Pick(r, pool))
 				c.Stat("parse.text", "mutated")
 			default:
-				t = Pick(r, []string{"GSUB1", "GSUB2", "GSUB3", "GSUB4", "GPOS1", "GPOS2"}) + ": " + randText(r)
+				t = Pick(r, []string{"GSUB1", "GSUB2", "GSUB3", "GSUB4", "GPOS1", "GPOS2", "GPOS3", "GPOS4"}) + ": " + randText(r)
 				c.Stat("parse.text", "fragments")
 			}
 			if hasOtherForm(t) {
